@@ -141,6 +141,32 @@ fn sub_general(ctx: &Ctx, out: &mut Outcome, name: &str, prof: SceneProfile, n: 
 fn sub_layer_scenarios(ctx: &Ctx, out: &mut Outcome, n: u64, secs: f64) {
     run_cases(ctx, out, SubSpec { name: "layer_scenarios", cases: n, exhaustive: false, max_secs: secs }, |i, want, st| {
         let mut rng = ctx.rng("layer_scenarios", i);
+        // layers nested a dozen deep with opacities just below 1 (a per-level rounding slip adds up)
+        if i % 50 == 21 {
+            let (w, h) = (rng.int(4, 10) as i32, rng.int(4, 10) as i32);
+            let n = (w * h) as usize;
+            let init = if rng.chance(0.5) { vec![0; n] } else { canary(&mut rng, n) };
+            let depth = rng.int(6, 14) as usize;
+            let mut ops: Vec<Op> = Vec::new();
+            let clip = rng.chance(0.5);
+            if clip {
+                ops.push(Op::PushClipRect(0, 0, w - rng.int(0, 1) as i32, h));
+            }
+            for _ in 0..depth {
+                ops.push(Op::PushLayer(*rng.pick(&[0.99f32, 0.98, 0.995, 0.9, 254. / 255.]), if rng.chance(0.85) { BlendMode::SrcOver } else { random_mode(&mut rng) }));
+            }
+            ops.push(Op::Fill(small_shape(&mut rng, w, h), SrcSpec::Solid(premul_pixel(&mut rng)), o(BlendMode::SrcOver, 1.)));
+            ops.push(Op::FillRect(1., 1., w as f32 - 2., h as f32 - 2., SrcSpec::Solid(premul_pixel(&mut rng) | 0xff000000), o(BlendMode::SrcOver, random_alpha(&mut rng))));
+            for _ in 0..depth {
+                ops.push(Op::PopLayer);
+            }
+            if clip {
+                ops.push(Op::PopClip);
+            }
+            st.add("scenarios_with_layers_nested_a_dozen_deep", 1);
+            let scene = Scene { w, h, init, ops };
+            return run_scene(&scene, st, &ctx.known, MonitorOpts::default(), want);
+        }
         let large = i % 400 == 7;
         // (one surface of more than 2^20 pixels per run)
         let very_large = i % 2000 == 407;
@@ -231,7 +257,12 @@ fn sub_layer_scenarios(ctx: &Ctx, out: &mut Outcome, n: u64, secs: f64) {
             // buffer that is not the surface and does not start at the origin)
             let has_b = !(rng.chance(0.3) && !outer_clip);
             if has_b {
-                ops.push(Op::PushClipRect(bx, by, bx + bw, by + bh));
+                // B is a rectangle, or a clip path that reaches beyond the layer's rectangle
+                if rng.chance(0.7) {
+                    ops.push(Op::PushClipRect(bx, by, bx + bw, by + bh));
+                } else {
+                    ops.push(Op::PushClip(if rng.chance(0.5) { rect_path(bx as f32 - 1.5, by as f32 - 0.5, bw as f32 + 3., bh as f32 + 2.) } else { random_path(&mut rng, w, h, false) }));
+                }
             } else {
                 ops.push(Op::SetTransform(Transform::identity()));
             }
@@ -702,6 +733,7 @@ pub fn run(ctx: &Ctx) -> Outcome {
             sub_directed(ctx, &mut out);
             sub_color_conversions(ctx, &mut out);
             sub_formula_validity(ctx, &mut out, ctx.n(1_000_000, 20_000_000));
+            sub_layer_scenarios(ctx, &mut out, ctx.n(6_000, 100_000), 60.);
             sub_surface_blits_validity(ctx, &mut out, ctx.n(40_000, 800_000));
             sub_opacity_lab(ctx, &mut out);
             sub_mask_lab(ctx, &mut out, ctx.n(10_000, 200_000), secs / 2.);
